@@ -480,6 +480,11 @@ func master() int {
 		simNames = append(simNames, s.Name())
 	}
 	perSim := budgetSeconds() / float64(len(simList))
+	if *fBudget == 0 && os.Getenv("VERIF_BUDGET_S") == "" && *fTier != "thorough" && perSim < 25 {
+		// a property served by several simulations: each gets a useful share
+		// of the default quick budget
+		perSim = 25
+	}
 	fmt.Printf("check property=%s sim=%s tier=%s seed=%d workers=%d budget=%.0fs\n", *fProp, strings.Join(simNames, "+"), *fTier, *fSeed, nw, budgetSeconds())
 
 	var outs []*WorkerOut
@@ -780,7 +785,7 @@ func master() int {
 		"rule":                rule,
 		"samples":             sampleVals,
 		"nontrivial_runs":     effRuns,
-		"runs_per_hour":       int(float64(runs) / (budgetSeconds() / 3600.0)),
+		"runs_per_hour":       int(float64(runs) / (wall / 3600.0)),
 		"simulated_seconds":   simSecs,
 		"workers":             nw,
 		"seed_derivation":     "run i of worker w executes seed Mix(VERIF_SEED, w, i); one seed is one exactly repeatable execution (./check <id> --replay <file> for a recorded plan)",
